@@ -94,6 +94,24 @@ def programs():
     # 11 wraps-evaluatable form and factory/domain defaults
     add("wraps", prog(DS(1), d1={"expr": O("A", dk="factory", dv=[1], n=1), "form": "explicit", "callback": "c1"}))
     add("domain", prog({"k": "coalesce", "members": [O("A", dom=["container", [0, 1, 2]]), O("B", dk="const", dv=1, dom=["pred", "is_int"], n=2), C("out")]}))
+    # 12 every combinator directly under a cache, branches with identical key sets, so that a
+    #    key set that omits the selecting child conflates two dictionaries
+    K = lambda spec: {"k": "cached", "spec": spec}  # noqa: E731
+    add("uc-bind", prog(K({"k": "bind", "src": O("A", dk="const", dv=0), "table": [[0, C("zero")], [1, C("one")]], "else": C("other"), "n": 1})))
+    add("uc-case", prog(K({"k": "case", "disp": O("A", dk="const", dv=None), "cases": [["isnone", C("n")], ["truthy", C("t")]], "default": C("f"), "n": 1})))
+    add("uc-switch", prog(K({"k": "switch", "disp": "D", "table": [["x", C(1)], ["y", C(2)]], "default": C(3)})))
+    add("uc-switch-opt", prog(K({"k": "switch", "disp": O("D", dk="const", dv="x"), "table": [["x", O("A", dk="const", dv="ax")], ["y", O("A", dk="const", dv="ay")]]})))
+    add("uc-coalesce", prog(K({"k": "coalesce", "members": [O("A"), O("B"), C("none")]})))
+    add("uc-map", prog(K({"k": "apply", "src": {"k": "map", "body": O("A"), "iters": [["A", O("L", dk="const", dv=[1])]]}, "fn": "f1", "n": 1})))
+    add("uc-tmpl", prog(K({"k": "tmpl", "text": "{:p:}/{A}", "params": [["p", O("B", dk="const", dv="b")]]})))
+    add("uc-step", prog(K({"k": "apply", "src": O("A", dk="const", dv=1), "fn": {"name": "s1", "params": [["p0", O("B", dk="const", dv=2)]], "n": 1}})))
+    add("uc-collections", prog(K({"k": "dict", "items": [["l", {"k": "list", "items": [O("A", dk="const", dv=1)]}], ["t", {"k": "tuple", "items": [O("B", dk="const", dv=2)]}], ["s", {"k": "set", "items": [O("D", dk="const", dv="x")]}]]})))
+    add("uc-with", prog(K({"k": "with", "spec": {"k": "tuple", "items": [O("A", dk="const", dv=0), O("S.X", dk="const", dv=0), O("S.Y", dk="const", dv=0)]}, "P": {"S": {"X": 9}}, "force": True})))
+    add("uc-withdefault", prog(K({"k": "with", "spec": {"k": "tuple", "items": [O("A", dk="const", dv=0), O("S.X", dk="const", dv=0), O("S.Y", dk="const", dv=0)]}, "P": {"S": {"X": 9}, "A": 8}, "force": False})))
+    add("uc-optdefault-chain", prog(K(O("A", dk="spec", dv=O("B", dk="spec", dv=O("C", dk="const", dv="end"))))))
+    add("uc-domain-spec", prog(K({"k": "coalesce", "members": [O("A", dk="const", dv=1, dom=["spec", O("C", dk="const", dv=[0, 1, "a"])]), C("rejected")]})))
+    add("uc-ds-dispatch-default", prog(K(DS(1)), d1={"args": [], "cache": "nocache", "dispatch": O("D", dk="const", dv="x", dom=["container", ["x", "y"]]),
+                                                    "overloads": [["x", {"expr": C("impl-x")}], ["y", {"expr": C("impl-y")}]]}))
     return out
 
 
